@@ -213,6 +213,11 @@ def run_date(job, res):
         # whole-day sweep around the local day (covers offset changes inside the day)
         for m in range(-120, 1560, 7):
             listing([RP.schedule_record(0, 0, base_day + 60 * m + 59, base_day + 60 * m + 3600)], "wide")
+        # the bytes next to the day mask (enabled flag, state) and the record's tail, in every combination with the mask:
+        # a switched-off one-time schedule (all three zero, in slot 0 the record even starts with four zero bytes) is a schedule
+        for slot, en, mask, st, tail in itertools.product((0, 3), (0, 1, 2, 0xFF), (0, 0x02, 0xFE), (0, 1, 2, 0xFF), (b"\xce\x0e\x00\x00", bytes(4), b"\xff" * 4)):
+            listing([RP.schedule_record(slot, mask, S0, E0, enabled=en, state=st, tail=tail)], "flags")
+        listing([RP.schedule_record(i, 0, S0 + 60 * i, E0, enabled=0, state=0, tail=bytes(4)) for i in range(4)], "flags")
         for n in range(0, 9):
             recs = [RP.schedule_record(i, (2 << i) & 0xFE or 2, S0 + 600 * i, E0 + 900 * i, enabled=i % 2, state=(i + 1) % 2) for i in range(n)]
             listing(recs, "count")
